@@ -14,6 +14,8 @@ import (
 	"time"
 
 	"github.com/jig/lisp"
+	"github.com/jig/lisp/lib/call"
+	. "github.com/jig/lisp/types"
 )
 
 type tailConcEngine struct{}
@@ -23,7 +25,7 @@ func init() { register("tailconc", &tailConcEngine{}) }
 func (e *tailConcEngine) leanName() string { return "nomodel" }
 
 const tailConcDefs = `(do
- (def deep-park (fn [n] (if (< n 1) (do (sleep 400) 0) (+ 1 (deep-park (- n 1))))))
+ (def deep-park (fn [n] (if (< n 1) (do (park!) 0) (+ 1 (deep-park (- n 1))))))
  (def count-down (fn [n] (if (< n 1) :done (count-down (- n 1)))))
  (def cd-cond (fn [n] (cond (< n 1) :done :else (cd-cond (- n 1)))))
  (def ping (fn [n] (if (< n 1) :done (pong (- n 1)))))
@@ -43,6 +45,8 @@ func (e *tailConcEngine) generate(r *rng, n int, tier string, emit func(string))
 			for _, d := range ds {
 				emit(fmt.Sprintf("loop=%d futures=%d depth=%d n=60000", l, k, d))
 			}
+			// … and with the loop ALREADY running (ten times longer) when the futures start their way down
+			emit(fmt.Sprintf("loop=%d futures=%d depth=8000 n=150000 during", l, k))
 		}
 	}
 }
@@ -59,12 +63,46 @@ func (e *tailConcEngine) run(payload string) string {
 	}
 	ctx, cancel := context.WithCancel(context.Background())
 	defer cancel()
+	// park!: the futures stay at the bottom of their recursion until the case is over (no timing involved)
+	entered := make(chan struct{}, 64)
+	release := make(chan struct{})
+	defer close(release)
+	call.CallOverrideFN(env, "park!", func() (MalType, error) {
+		entered <- struct{}{}
+		select {
+		case <-release:
+		case <-time.After(2 * time.Minute):
+		}
+		return nil, nil
+	})
 	defs, err := lisp.READ(tailConcDefs, nil, env)
 	if err != nil {
 		return "setup-error"
 	}
 	if _, err := lisp.EVAL(ctx, defs, env); err != nil {
 		return "setup-error " + oneLine(err.Error())
+	}
+	ast, err := lisp.READ(fmt.Sprintf(tailConcLoops[l], n), nil, env)
+	if err != nil {
+		return "setup-error"
+	}
+	during := strings.HasSuffix(payload, " during")
+	loopDone := make(chan string, 1)
+	runLoop := func() {
+		got := "BLOCKED"
+		within(concWatchdog*6, func() {
+			v, err := lisp.EVAL(ctx, ast, env)
+			if err != nil {
+				got = "err " + oneLine(err.Error())
+			} else {
+				got = "ok " + render(v)
+			}
+		})
+		loopDone <- got
+	}
+	if during {
+		go runLoop()
+		time.Sleep(20 * time.Millisecond)
 	}
 	for i := 0; i < k; i++ {
 		f, err := lisp.READ(fmt.Sprintf("(def bg%d (future (deep-park %d)))", i, d), nil, env)
@@ -75,20 +113,17 @@ func (e *tailConcEngine) run(payload string) string {
 			return "setup-error " + oneLine(err.Error())
 		}
 	}
-	time.Sleep(60 * time.Millisecond) // the futures are on their way down (or parked) by now
-	ast, err := lisp.READ(fmt.Sprintf(tailConcLoops[l], n), nil, env)
-	if err != nil {
-		return "setup-error"
-	}
-	got := "BLOCKED"
-	within(concWatchdog*4, func() {
-		v, err := lisp.EVAL(ctx, ast, env)
-		if err != nil {
-			got = "err " + oneLine(err.Error())
-		} else {
-			got = "ok " + render(v)
+	for i := 0; i < k; i++ { // every future has reached the bottom of its recursion and is parked there
+		select {
+		case <-entered:
+		case <-time.After(4 * time.Second): // (a future that failed on its way down never parks: go on with what is there)
+			i = k
 		}
-	})
+	}
+	if !during {
+		go runLoop()
+	}
+	got := <-loopDone
 	if got != "ok "+render("ʞdone") {
 		return strings.Fields(got)[0] + fmt.Sprintf("\t!a tail-recursive loop of %d iterations did not complete while %d future(s) were parked %d frames deep: %s", n, k, d, got[:min(len(got), 160)])
 	}
